@@ -47,6 +47,13 @@ def run_check(prop: str, tier: str, root: str, *, write_evidence: bool = True, o
             except AnalysisError as err:
                 # one rule losing its anchor must not hide what the other rules decide
                 error = f"{error}; {err}" if error else f"{err}"
+        if not only_rules or f"{prop}.R0" in only_rules:
+            # the code the rules consulted is well-formed: a rule that reads the shape of a function says nothing about a
+            # name in it that does not exist (the tests do not reach most of these functions)
+            from .totality import check_names_bound
+
+            res.rules_run.append(f"{prop}.R0")
+            check_names_bound(prog, res, f"{prop}.R0")
     except AnalysisError as err:
         error = f"{err}"
     except Exception as err:  # a crash of the checker is never a verdict
